@@ -168,10 +168,14 @@ fn check_serialisation(w: &World, root: Lid, stats: &mut Stats, normalized: bool
     // subject of C01/C03, not of this property
     let evs = match xmlscan::scan(&text) {
         Ok(e) => e,
-        Err(_) => {
+        // content that has no XML representation (API-set comment / PI / CDATA content) is C01/C03's subject
+        Err(e) if e.contains("comment") || e.contains("PI") || e.contains("CDATA") => {
             stats.inc("probe/c10_serialisation_not_scannable_skipped");
             return Ok(None);
         }
+        // a start tag, attribute, declaration or reference that cannot be read: the names of such
+        // a text do not resolve to anything
+        Err(e) => return Err(v("name-meaning-changed", format!("serialisation {:?} cannot be read ({}), so its names do not resolve", text, e))),
     };
     let res = xmlscan::resolve(&evs).map_err(|e| v("name-meaning-changed", format!("serialisation {:?} is not namespace-well-formed: {}", text, e)))?;
     let exp = model_names(&w.model, root);
